@@ -15,7 +15,9 @@ RULE = ("seeded streams: constructor with normals unit / off by multiples of the
         "from_points_and_vector (incl. parallel); fit_from_points (generic, nearly planar, exactly planar, collinear, "
         "lattice clouds of 3..14 points); tilted (axis and rational planes, degenerate tilt); equation functions on "
         "stacks of 1..5 triangles and on each triangle alone; coordinate planes; power-of-two scales 2^-30..2^30; "
-        "small triangles (1e-9..1) translated to coordinates up to 1e8; integer-dtype arguments; every argument is a "
+        "small triangles (1e-9..1) translated to coordinates up to 1e8; unit-size clouds on a dyadic grid translated by "
+        "2^24..2^31 per axis (exactly planar / nearly planar / generic; least-squares clause judged relative to the cloud "
+        "diameter); integer-dtype arguments; every argument is a "
         "row view of a caller buffer that is overwritten after construction (aliasing probe); "
         "non-trivial = a plane was returned; distinct by hash of inputs")
 TRUSTED = ["Coq 8.16.1 kernel, vm_compute for the correspondence evaluation",
@@ -247,6 +249,29 @@ def _structured_cases(rng, tier):
         cr = _cross(e, _F(v))
         if _dot(cr, cr) * 100 >= _dot(e, e) * _dot(_F(v), _F(v)) > 0:
             cases.append({"kind": "fpv_far", "decimals": None, "p1": t[0], "p2": t[1], "vector": v})
+    # clouds of unit size on a dyadic grid, translated far from the origin by dyadic offsets (every coordinate exact,
+    # N a power of two so that the mean is exact): exactly planar (optimum 0), nearly planar, generic
+    for _ in range(10 if tier == "quick" else 60):
+        for mode in ("planar", "nearly_planar", "generic"):
+            off = [rng.choice([1, -1]) * 2.0 ** rng.randint(24, 31) for _ in range(3)]
+            npts = rng.choice([4, 8, 16])
+            a, b, cc = rng.choice([(1, 2, 2), (2, -1, 3), (3, 1, -2), (1, 1, 1), (2, 3, -1), (1, -3, 2)])
+            pts = set()
+            while len(pts) < npts:
+                if mode == "generic":
+                    q3 = tuple(rng.randint(-8, 8) / 8 for _ in range(3))
+                else:
+                    i, j = rng.randint(-6, 6), rng.randint(-6, 6)
+                    w = 0 if mode == "planar" else rng.randint(-2, 2)
+                    q3 = ((i * b) / 8 + w * a / 64, (-i * a + j * cc) / 8 + w * b / 64, (-j * b) / 8 + w * cc / 64)
+                pts.add(q3)
+            pts = sorted(pts)
+            rng.shuffle(pts)
+            c = {"kind": "fit_far_" + mode, "points": [[o + x for o, x in zip(off, q3)] for q3 in pts], "feature": True,
+                 "planar_exact": mode == "planar"}
+            if _fit_tie(c["points"]):
+                c["kind"] += "_tie"
+            cases.append(c)
     for _ in range(6 if tier == "quick" else 30):
         ax = rng.randrange(3)
         n = [0.0, 0.0, 0.0]
@@ -706,17 +731,26 @@ def oracle(c, o):
         bad = _plane_ok(o)
         if bad:
             return bad
-        if any(abs(Fr(a) - b) > Fr(1, 10 ** 9) * mag for a, b in zip(o["ref"], cen)):
-            return "fitted plane does not pass through the centroid"
+        cpts = [_sub(p, cen) for p in pts]
+        diam2 = max([Fr(0)] + [_dot(_sub(p, r), _sub(p, r)) for p in pts for r in pts])
+        # far-offset clouds (exact coordinates, exact mean): tolerance relative to the cloud's own size, not to the
+        # magnitude of its coordinates
+        cen_tol = Fr(1, 10 ** 9) * (Fr(math.sqrt(float(diam2))) if c.get("feature") else mag)
+        if any(abs(Fr(a) - b) > cen_tol for a, b in zip(o["ref"], cen)):
+            return "fitted plane does not pass through the centroid (reference point %r, centroid %r)" % (
+                o["ref"], [float(x) for x in cen])
         nrm = _F(o["normal"])
         n2 = _dot(nrm, nrm)
-        cpts = [_sub(p, cen) for p in pts]
         ssd = sum(_dot(p, nrm) ** 2 for p in cpts) / n2
-        S = np.array([[float(sum(p[a] * p[b] for p in cpts)) for b in range(3)] for a in range(3)])
-        lam = float(np.linalg.eigvalsh(S)[0])
-        tot = float(np.trace(S))
-        if float(ssd) > max(lam, 0.0) * (1 + 1e-6) + 1e-9 * max(tot, 1e-300):
-            return "fitted plane is not least squares: sum of squared distances %g > minimum %g" % (float(ssd), lam)
+        if c.get("planar_exact"):
+            lam = 0.0  # exactly planar by construction: the optimum is 0
+        else:
+            # the centred points are exact and small: the scatter matrix in binary64 is accurate to ~1e-16 of its trace
+            S = np.array([[float(sum(p[a] * p[b] for p in cpts)) for b in range(3)] for a in range(3)])
+            lam = float(np.linalg.eigvalsh(S)[0])
+        if float(ssd) > max(lam, 0.0) * (1 + 1e-6) + 1e-9 * max(float(diam2), 1e-300):
+            return ("fitted plane is not least squares: sum of squared distances %g > optimum %g (cloud diameter %g)"
+                    % (float(ssd), lam, math.sqrt(float(diam2))))
         return None
     if k.startswith("tilted"):
         from polliwog import Plane
